@@ -3,6 +3,7 @@ package vc
 import (
 	"flag"
 	"fmt"
+	"os"
 	"strings"
 )
 
@@ -29,6 +30,11 @@ func Main(args []string) int {
 		return cmdCheck(args[1:])
 	case "verify":
 		return cmdVerify(args[1:])
+	case "summary":
+		return cmdSummary(args[1:])
+	case "model":
+		// vcgo model file.smt2 [prefix...]: print values of named Bool/Int symbols with the given prefixes
+		return cmdModel(args[1:])
 	case "list":
 		P, err := Load("/repo")
 		if err != nil {
@@ -97,6 +103,88 @@ func cmdVerify(args []string) int {
 	}
 	if bad > 0 {
 		return 1
+	}
+	return 0
+}
+
+func cmdModel(args []string) int {
+	if len(args) < 1 {
+		return 2
+	}
+	data, err := os.ReadFile(args[0])
+	if err != nil {
+		fmt.Println(err)
+		return 2
+	}
+	prefixes := args[1:]
+	if len(prefixes) == 0 {
+		prefixes = []string{"reach.", "p.", "exit.", "cond"}
+	}
+	var names []string
+	for _, line := range strings.Split(string(data), "\n") {
+		var name string
+		if strings.HasPrefix(line, "(define-fun ") {
+			f := strings.Fields(line)
+			if len(f) > 3 && (f[3] == "Bool" || f[3] == "Int") {
+				name = f[1]
+			}
+		} else if strings.HasPrefix(line, "(declare-const ") {
+			f := strings.Fields(line)
+			if len(f) > 2 && (strings.HasPrefix(f[2], "Bool") || strings.HasPrefix(f[2], "Int")) {
+				name = f[1]
+			}
+		}
+		if name == "" {
+			continue
+		}
+		for _, p := range prefixes {
+			if strings.HasPrefix(name, p) {
+				names = append(names, name)
+				break
+			}
+		}
+	}
+	q := string(data) + "(get-value (" + strings.Join(names, " ") + "))\n"
+	tmp := args[0] + ".model.smt2"
+	os.WriteFile(tmp, []byte(q), 0o644)
+	defer os.Remove(tmp)
+	_, out, _ := runSolver(Solvers[0], 30, tmp)
+	out = strings.ReplaceAll(out, ")\n (", ")\n(")
+	for _, l := range strings.Split(out, "\n") {
+		if strings.Contains(l, " false)") {
+			continue
+		}
+		fmt.Println(l)
+	}
+	return 0
+}
+
+func cmdSummary(args []string) int {
+	P, err := Load("/repo")
+	if err != nil {
+		fmt.Println(err)
+		return 2
+	}
+	S, _ := LoadSpecs("/repo", "/verif/contracts")
+	E := NewEngine(P, S)
+	for _, n := range args {
+		fn := P.Funcs[n]
+		if fn == nil {
+			fmt.Println("no such function", n)
+			continue
+		}
+		s := E.SummaryOf(fn)
+		fmt.Printf("%s: ret=%v\n", n, s.Ret)
+		for r, keys := range s.Mod {
+			var ks []string
+			for k := range keys {
+				ks = append(ks, k)
+			}
+			fmt.Printf("   root %d: %v\n", r, ks)
+		}
+		for _, g := range s.GW {
+			fmt.Printf("   global write at %s via %s\n", shortFile(g.Pos), g.Via)
+		}
 	}
 	return 0
 }
